@@ -153,6 +153,9 @@ def supervise(binary, jobs, stall_s=20, max_restarts=50):
                 pr["last_hb"], pr["t_hb"] = hb, now
             if rc is not None:
                 procs.remove(pr)
+                if rc == 101:
+                    # exit code of an uncaught Rust panic: panics of the code under test are caught (catch_unwind), so this is the harness itself
+                    raise ToolError("the harness panicked (job %s, item %s): %s" % (j.get("jobfile"), hb, (pr["p"].stderr.read() or "")[-1500:]))
                 if rc != 0 and hb is not None and hb != DONE:
                     incidents.append({"kind": "abort", "job": j, "item": hb, "rc": rc, "stderr": pr["p"].stderr.read()[-2000:] if pr["p"].stderr else ""})
                     if pr["restarts"] < max_restarts:
